@@ -32,6 +32,8 @@ type c04Model struct {
 	hardTx map[int]int // id -> transaction which hard-deleted it
 	softTx map[string]map[int]int
 	maxTx  map[string]int // per user: highest transaction touching the user (soft by user or hard)
+	// lastHardTx is the number of the latest hard-deletion transaction, whether or not it removed anything new
+	lastHardTx int
 }
 
 type c04User struct {
@@ -310,6 +312,7 @@ func (sc *c04Scn) delStep(u *c04User) {
 		for _, x := range sc.us {
 			sc.m.maxTx[x.u.uid.UserId()] = gotDel
 		}
+		sc.m.lastHardTx = gotDel
 	} else {
 		if hard {
 			r.Hit("del_hard_degrades_to_soft")
@@ -630,14 +633,9 @@ func c04Scenario(w *vfWorld, r *vfkit.R, idx int) {
 				sc.logf("%s unsub %s resub %s", u.role, codeStr(f1), codeStr(f2))
 				if f1 != nil && f1.code() == 200 {
 					delete(sc.m.soft, u.u.uid.UserId())
-					// transaction counter seen by the user restarts with the topic's hard deletions only
-					mx := 0
-					for _, tx := range sc.m.hardTx {
-						if tx > mx {
-							mx = tx
-						}
-					}
-					sc.m.maxTx[u.u.uid.UserId()] = mx
+					// transaction counter seen by the user restarts with the topic's hard-deletion transactions only
+					// (the latest one counts even if every id it named had been removed before)
+					sc.m.maxTx[u.u.uid.UserId()] = sc.m.lastHardTx
 				}
 			}
 		}
